@@ -84,7 +84,7 @@ Definition delivered_otherwise (su : setup) (init : obs) (st : list istep) : boo
   match from with
   | None => true
   | Some t =>
-      dropped_submit init st || negb (o_cbq lo =? 0) || negb (o_mon lo =? 9) || negb (o_cb lo =? 3)
+      negb (su_on_err su) || dropped_submit init st || negb (o_cbq lo =? 0) || negb (o_mon lo =? 9) || negb (o_cb lo =? 3)
       || (srcerrs_after t <=? delivered)
   end.
 
